@@ -348,7 +348,7 @@ type ptEncCase struct {
 }
 
 // viaForms lists operation-produced representations of the same point.
-var viaForms = []string{"used-receiver:Negate", "used-receiver:Add", "used-receiver:SetExtendedCoordinates", "used-receiver:Set", "used-receiver:ScalarMult", "used-receiver:Subtract", "direct", "Add(P-B,B)", "Subtract(P+B,B)", "Negate(Negate)", "ScalarMult(1)", "VarTimeMultiScalarMult([1])", "Add(P,identity)", "Decode", "MultiScalarMult([1])", "VarTimeDouble(1,P,0)", "Add(P-T,T)"}
+var viaForms = []string{"Add(P+R,Negate(R))", "used-receiver:Negate", "used-receiver:Add", "used-receiver:SetExtendedCoordinates", "used-receiver:Set", "used-receiver:ScalarMult", "used-receiver:Subtract", "direct", "Add(P-B,B)", "Subtract(P+B,B)", "Negate(Negate)", "ScalarMult(1)", "VarTimeMultiScalarMult([1])", "Add(P,identity)", "Decode", "MultiScalarMult([1])", "VarTimeDouble(1,P,0)", "Add(P-T,T)"}
 
 func viaPoint(c ptEncCase) *edwards25519.Point {
 	pm := c.P.model()
@@ -383,6 +383,9 @@ func viaPoint(c ptEncCase) *edwards25519.Point {
 		}
 	}
 	switch c.Via {
+	case "Add(P+R,Negate(R))": // the negated operand's T is consumed by the addition
+		R := ref.Mul(big.NewInt(11), B)
+		return new(edwards25519.Point).Add(alpha.MakePoint(ref.Add(pm, R), c.P.Form), new(edwards25519.Point).Negate(alpha.MakePoint(R, 6)))
 	case "direct":
 		return p
 	case "Add(P-B,B)":
